@@ -18,6 +18,7 @@ CONSTANTS MCDefectSets,             \* the deviation sets explored side by side:
           MCHistSizes, MCHistMethods,   \* sizes / methods used with histories of two attempts
           MCHist3Sizes,             \* sizes used with histories of three attempts
           MCShortSizes,             \* sizes used with short-reading streams
+          MCWideSizes, MCWideHistSizes, \* sizes (bytes: multiples of the item size) of wide buffers, alone / with longer histories
           MCShortTextMaxHist,       \* longest history used with the TEXT short-reading streams
           MCBS,                     \* blocksize
           ShardK, ShardS,           \* emission sharding
@@ -35,17 +36,24 @@ Data(kind, n) == [i \in 1..n |-> IF kind \in TextKinds /\ i % 2 = 1 THEN NA ELSE
 Hists == {Env.hists[i] : i \in 1..Len(Env.hists)}
 ASSUME \A h \in Hists : Len(h) \in 1..3 /\ h[Len(h)] = "ok" /\ \A i \in 1..(Len(h) - 1) : h[i] \in Outcomes \ {"ok"}
 
-Raw == [kind : MCKinds, n : MCSizes, start : {0, 1}, m : MCMethods, chunked : BOOLEAN,
+AllSizes == MCSizes \cup MCHistSizes \cup MCHist3Sizes \cup MCShortSizes \cup MCWideSizes \cup MCWideHistSizes
+SizesFor(r) == IF r.kind = "none" THEN {0}
+               ELSE IF r.kind \in ShortReaders THEN MCShortSizes
+               ELSE IF r.kind = "widebuffer" THEN (IF Len(r.hist) = 1 THEN MCWideSizes ELSE MCWideHistSizes)
+               ELSE IF Len(r.hist) = 1 THEN MCSizes ELSE IF Len(r.hist) = 2 THEN MCHistSizes ELSE MCHist3Sizes
+Raw == [kind : MCKinds, n : AllSizes, start : {0, 1}, m : MCMethods, chunked : BOOLEAN,
         caller : {"none", "cl", "te"}, client : {"pool", "mgr"}, hist : Hists]
 Admissible(r) ==
-    /\ (r.kind = "none" => r.n = 0)
+    /\ r.n \in SizesFor(r)
     /\ (r.start = 1 => r.kind \in FileLike)
     /\ (r.caller # "none" => r.hist = <<"ok">> /\ r.client = "pool" /\ r.start = 0)
-    /\ (r.kind \in ShortReaders => r.n \in MCShortSizes)
     /\ (r.kind \in {"shorttextfile", "shorttextpipe"} => Len(r.hist) <= MCShortTextMaxHist)
+    \* (a caller-supplied Transfer-Encoding with a wide buffer runs into the recorded chunk-size finding as well, but the
+    \*  statement does not judge caller-framed requests: left out rather than reported as drift)
+    /\ (r.kind = "widebuffer" => r.caller # "te")
     /\ (r.caller = "cl" => ~r.chunked)        \* a caller that asks for chunking AND supplies Content-Length contradicts itself
-    /\ (Len(r.hist) = 2 => r.m \in MCHistMethods /\ (r.kind = "none" \/ r.n \in MCHistSizes))
-    /\ (Len(r.hist) = 3 => r.m \in MCHistMethods /\ ~r.chunked /\ (r.kind = "none" \/ r.n \in MCHist3Sizes))
+    /\ (Len(r.hist) = 2 => r.m \in MCHistMethods)
+    /\ (Len(r.hist) = 3 => r.m \in MCHistMethods /\ ~r.chunked)
 ScOf(r) == [kind |-> r.kind,
             content |-> (IF r.start = 1 THEN <<"X">> ELSE <<>>) \o Data(r.kind, r.n), start |-> r.start,
             method |-> MethodTable[r.m], chunked |-> r.chunked, caller |-> r.caller, bs |-> MCBS,
@@ -58,6 +66,8 @@ ShardOf(r) == (r.n + r.m + Len(r.hist) + (IF r.chunked THEN 1 ELSE 0) + (IF r.cl
 Relevant(d, r) == /\ ("D3" \in d => r.kind \in OneShot)
                   /\ (Z0 \in d => r.client = "mgr" /\ r.kind \in HasTell /\ r.caller = "none")
                   /\ (SR \in d => r.kind \in ShortReaders /\ r.caller = "none")
+                  /\ (LCI \in d => r.kind = "widebuffer" /\ r.caller = "none")
+                  /\ (CSI \in d => r.kind = "widebuffer" /\ r.caller = "none")
 Init == \E r \in Raw, d \in MCDefectSets :
             /\ Admissible(r) /\ Relevant(d, r) /\ ShardOf(r) = ShardS
             /\ sc = ScOf(r) /\ st = InitState(sc) /\ dv = d
@@ -112,12 +122,17 @@ RulesHoldExceptKnown ==
         \* a truncated body fails against the body's bytes on the first complete attempt (PayloadEqualsBody when that is attempt 1)
         \/ SR \in D /\ V.clause \in {"PayloadEqualsBody", "BodyIdentical"} /\ InClassSR(sc)
            /\ (V.clause = "BodyIdentical" => ~st.atts[1].complete)
+        \* a wide buffer framed by items: the first complete attempt already fails against the body's bytes
+        \/ LCI \in D /\ V.clause \in {"PayloadEqualsBody", "BodyIdentical"} /\ InClassLCI(sc)
+           /\ (V.clause = "BodyIdentical" => ~st.atts[1].complete)
+        \/ CSI \in D /\ V.clause \in {"PayloadEqualsBody", "BodyIdentical"} /\ InClassCSI(sc)
+           /\ (V.clause = "BodyIdentical" => ~st.atts[1].complete)
 \* the position handed to a redirected request is the one recorded before the FIRST attempt (0 is a position)
 ManagerKeepsFirstPosition == D \cap {Z0} = {} =>
     (sc.client = "mgr" /\ st.kwPos # PosNone /\ sc.kind \in (Rewindable \cup {"badseek"}) => st.kwPos = PosAt(sc.start))
 \* the framing decision table, clause by clause, on every attempt made so far (caller supplies no framing header)
 FramingTable ==
-    sc.caller = "none" => \A j \in 1..Len(st.atts) :
+    sc.caller = "none" /\ D \cap {LCI, CSI} = {} => \A j \in 1..Len(st.atts) :
         LET a == st.atts[j] IN
         a.complete =>
         /\ a.ok /\ a.clean
@@ -145,6 +160,6 @@ Terminates == <>(st.pc = "done")
 -----------------------------------------------------------------------------
 (* Emission (stage 2): one line per terminal state                               *)
 EmitInv == (EmitOn /\ st.pc = "done") =>
-    PrintT(<<"SC", ToJson([sc |-> sc, dv |-> IF dv = {} THEN "design" ELSE IF dv = {"D3"} THEN "D3" ELSE IF dv = {Z0} THEN Z0 ELSE IF dv = {SR} THEN SR ELSE "other", outcome |-> st.outcome, verdict |-> V,
+    PrintT(<<"SC", ToJson([sc |-> sc, dv |-> IF dv = {} THEN "design" ELSE IF dv = {"D3"} THEN "D3" ELSE IF dv = {Z0} THEN Z0 ELSE IF dv = {SR} THEN SR ELSE IF dv = {LCI} THEN LCI ELSE IF dv = {CSI} THEN CSI ELSE "other", outcome |-> st.outcome, verdict |-> V,
                            trail |-> st.trail, atts |-> [j \in 1..Len(st.atts) |-> Proj(st.atts[j])]])>>)
 =============================================================================
